@@ -931,6 +931,18 @@ def stage_channels(ctx):
     ctx.notes.append("channels: worst relative difference %.3g (tolerance %.0e)" % (worst, TOL_CH))
 
 
+# source tie: to_vector of core/metadata.py as written now
+def _src_items():
+    from harness.lib import pygrid
+    return [dict(file="holopy/core/metadata.py", qualname="to_vector", name="to_vector_src", fn=pygrid.to_vector)]
+
+
+def stage_srctie(ctx):
+    from harness.lib import srctie
+    ok = srctie.run(ctx, "C06", "From Coq Require Import Lia Psatz.\nFrom HV Require Import C01.Model C06.Model C06.Lemmas C06.Props.\n", _src_items())
+    ctx.count("srctie:%s" % ("ok" if ok else "broken"))
+
+
 def run(ctx):
     ctx.rule = ("mock stage: scatterer trees (depth 0-3, classes Scatterers / Spheres / two harness subclasses, 1-12 "
                 "primitives, uniform and layered spheres, occasional empty collections and non-spheres) x channel layouts "
@@ -956,7 +968,16 @@ def run(ctx):
         "cos/sin(arctan2(p_y,p_x)) = p/|p| for the MieLens polarisation angle, 2*pi",
         "oracle: xarray label selection (.sel), dict lookup, xr.concat along the illumination coordinate",
         "mock theory: harness-side subclass of holopy's public ScatteringTheory (records its arguments)"]
+    ctx.trusted.append("source reader harness/lib/pygrid.py (a vector read as the list of its components; python floats read as the reals "
+                       "their decimal text denotes) for the source tie")
+    ctx.clauses_proved.append(
+        "source tie: to_vector of core/metadata.py, read per component from the current source text on every run, hands on "
+        "(a, b, 0) / sqrt(a^2 + b^2); that norm meets the hypotheses of the linearity theorems, which are restated for the source; the "
+        "result is invariant under scaling the polarisation by any s > 0; a labelled per-channel array is handed on unchanged only when "
+        "ALL channels have unit length to 1e-12 [src_polarisation_components, src_pol_linear_mie, src_pol_linear_mielens, "
+        "src_polarisation_scale_invariant, to_vector_lab_src_all]")
     guarded(ctx, "prove", ctx.prove)
+    guarded(ctx, "source-tie", stage_srctie, ctx)
     boot.boot()
     guarded(ctx, "mock", stage_mock, ctx)
     guarded(ctx, "assembly", stage_assembly, ctx)
